@@ -473,3 +473,8 @@ PROPS.update({
               assumptions=["a keep-alive-enforcing broker is assumed, not run: the bound '1.5 x keep-alive after the last packet' is the broker's; the check establishes that the "
                            "gateway's last packet of its own accord comes no later than the announced sleep + retry budget"]),
 })
+
+# the thorough tier: four times the case counts written above (a gateway or client session costs about 2 ms)
+for _d in (GW_PROFILES, CL_PROFILES):
+    for _k in list(_d):
+        _d[_k] = [(pr, nq, nt * 4) for pr, nq, nt in _d[_k]]
